@@ -53,8 +53,73 @@ var (
 	scopeKeys = []string{"sk", "short_name", "x"}
 )
 
+// kvOpts: every attribute list of every signal (span / event / link /
+// exemplar attributes, data-point sets, resource and scope attributes) draws
+// its keys from a short alphabet (duplicates are frequent) plus, about 1 time
+// in 12, the empty key. The expected side is always read back through the
+// public accessors of the object the exporter is given (ReadOnlySpan,
+// attribute.Set, Resource ...), so containers that refuse such a key
+// themselves are accounted for; what the exporter is handed it must encode.
 func kvOpts(keys []string) vk.KVOpts {
-	return vk.KVOpts{Keys: keys, NaN: true, MaxSlice: 3, MaxTextParts: 4}
+	return vk.KVOpts{Keys: keys, EmptyKey: true, NaN: true, MaxSlice: 3, MaxTextParts: 4}
+}
+
+// genSize draws a list length: normally from the small sample, 1 time in
+// oneIn from a log-uniform range lo..hi (every order of magnitude equally
+// likely), so that fixed-size fast paths, default SDK limits (128) and
+// pre-sized buffers are crossed by construction.
+func genSize(t *rapid.T, label string, small []int, oneIn, lo, hi int) int {
+	if oneIn <= 0 || rapid.IntRange(0, oneIn-1).Draw(t, label+"_wide") != oneIn-1 { // last value: shrinking moves to small
+		return rapid.SampledFrom(small).Draw(t, label)
+	}
+	bits := 0
+	for 1<<(bits+1) <= hi {
+		bits++
+	}
+	lb := 0
+	for 1<<(lb+1) <= lo {
+		lb++
+	}
+	b := rapid.IntRange(lb, bits).Draw(t, label+"_bits")
+	l, h := 1<<b, 1<<(b+1)-1
+	if l < lo {
+		l = lo
+	}
+	if h > hi {
+		h = hi
+	}
+	return rapid.IntRange(l, h).Draw(t, label+"_n")
+}
+
+// genKVsN draws exactly n attributes.
+func genKVsN(t *rapid.T, o vk.KVOpts, n int, label string) []vk.KV {
+	g := vk.GenKV(o)
+	out := make([]vk.KV, n)
+	for i := range out {
+		out[i] = g.Draw(t, label)
+	}
+	return out
+}
+
+// hasEmptyKey / hasDupKey classify attribute lists.
+func hasEmptyKey(kvs []vk.KV) bool {
+	for _, kv := range kvs {
+		if kv.K == "" {
+			return true
+		}
+	}
+	return false
+}
+
+func hasDupKey(kvs []vk.KV) bool {
+	seen := map[string]bool{}
+	for _, kv := range kvs {
+		if seen[string(kv.K)] {
+			return true
+		}
+		seen[string(kv.K)] = true
+	}
+	return false
 }
 
 func genText(parts int) *rapid.Generator[string] {
